@@ -224,7 +224,7 @@ def run(R):
     L = c15.Lib()
     mods = {m: importlib.import_module(f'pytoniq_core.tlb.{m}') for m in ('transaction', 'account', 'block', 'config', 'utils')}
     R.rule = ('for every constructor of the covered block.tlb types (85 constructors of 45 types transcribed independently as data in lib/tlbspec.py, plus hand-written '
-              'BlockInfo / BlkPrevInfo / McStateExtra / ShardStateUnsplit / BlockExtra encoders) values are generated with every optional-field combination reachable, '
+              'BlockInfo / BlkPrevInfo / McStateExtra encoders, ShardHashes over every BinTree shape up to 5 leaves, and the ConfigParam 8/28/32-37 entry points of covered types) values are generated with every optional-field combination reachable, '
               'integers at the boundaries of their width (>= 2^63 for uint64, >= 2^31 for uint32), encoded by the reference, followed by 4 sentinel bits and one '
               'sentinel reference; the library parser must return every field with the encoded value (unsigned stays unsigned, after the documented bytes<->hex, '
               'bit<->bool and attribute-name mapping) and leave exactly the sentinel. The bundled main-net block is decoded by a hand-written reader and compared '
@@ -254,6 +254,8 @@ def run(R):
                     w.bits(SENT_BITS).ref(rc.RC('0110'))
                 cell = w.cell()
                 one_case(R, L, cls, name, cname, v, cell, sentinel)
+        config_wrappers(R, L, mods, rng, quick, g)
+        shard_hashes(R, L, mods, rng, quick, g)
         custom_block_types(R, L, mods, rng, quick, g)
         mainnet_block(R, L, mods)
     finally:
@@ -264,10 +266,16 @@ def run(R):
     R.floor('fields_compared', 3000)
     R.floor('sentinel_checks', 200)
     R.floor('blockinfo_cases', 16)
+    R.floor('config_wrapper_cases', 10)
+    if R.nshards == 1:
+        R.floor('shard_hashes_cases', 20)
 
 
-def one_case(R, L, cls, name, cname, v, cell, sentinel, deser=None):
+def one_case(R, L, cls, name, cname, v, cell, sentinel, deser=None, via=None):
     W = {'type': name, 'constructor': cname, 'boc': rc.encode_boc([cell]), 'sentinel': sentinel}
+    if via:
+        W['entry_point'] = via
+        R.cover('entry_points', via)
     R.cover('constructors_covered', (name, cname))
     st, lc = mon.call(bridge.to_lib, cell)
     if st == 'exc':
@@ -280,7 +288,7 @@ def one_case(R, L, cls, name, cname, v, cell, sentinel, deser=None):
            sample={'type': name, 'constructor': cname} if R.evaluations < 4 else None)
     if st == 'exc':
         R.exc(o)
-        R.violation(f'deserialize-raises-{name}.{cname}-{type(o).__name__}', f'{name}.deserialize raised {o!r} on a valid {cname}', W)
+        R.violation(f'deserialize-raises-{(via + ":") if via else ""}{name}.{cname}-{type(o).__name__}', f'{via or name}.deserialize raised {o!r} on a valid {cname}', W)
         return
     C = Cmp(R, L)
     try:
@@ -298,6 +306,103 @@ def one_case(R, L, cls, name, cname, v, cell, sentinel, deser=None):
         if left_bits != SENT_BITS or left_refs != 1:
             R.violation(f'consumed-wrong-amount-{name}.{cname}', f'{name}.{cname}: after parsing, {len(left_bits)} bits / {left_refs} refs remain instead of the 4 sentinel bits / 1 sentinel '
                         f'reference', W)
+
+
+# ------------------------------------------------------------------------------------------- configuration-parameter entry points of covered types
+WRAPPERS = [('ConfigParam28', 'CatchainConfig', None), ('ConfigParam8', 'GlobalVersion', None), ('ConfigParam32', 'ValidatorSet', 'prev_validators'),
+            ('ConfigParam33', 'ValidatorSet', 'prev_temp_validators'), ('ConfigParam34', 'ValidatorSet', 'cur_validators'), ('ConfigParam35', 'ValidatorSet', 'cur_temp_validators'),
+            ('ConfigParam36', 'ValidatorSet', 'next_validators'), ('ConfigParam37', 'ValidatorSet', 'next_temp_validators')]
+
+
+def config_wrappers(R, L, mods, rng, quick, g):
+    """_ CatchainConfig = ConfigParam 28; _ cur_validators:ValidatorSet = ConfigParam 34; ... : the same schema types reached through their ConfigParam entry points"""
+    for wname, tname, attr in WRAPPERS:
+        wcls = getattr(mods['config'], wname, None)
+        if wcls is None:
+            R.count('config_wrapper_absent')
+            continue
+        for c in S.TYPES[tname]:
+            for rep in range(2 if quick else 20):
+                v, w = S.fitting_value(g, tname, c[0])
+                if v is None:
+                    continue
+                w.bits(SENT_BITS).ref(rc.RC('0110'))
+                deser = (lambda sl: wcls.deserialize(sl)) if attr is None else (lambda sl: getattr(wcls.deserialize(sl), attr))
+                one_case(R, L, wcls, tname, c[0], v, w.cell(), True, deser=deser, via=wname)
+                R.count('config_wrapper_cases')
+
+
+# ------------------------------------------------------------------------------------------- ShardHashes: HashmapE 32 ^(BinTree ShardDescr)
+def tree_shapes(n):
+    """all binary tree shapes with n leaves: None = leaf, (l, r) = fork"""
+    if n == 1:
+        return [None]
+    return [(l, r) for k in range(1, n) for l in tree_shapes(k) for r in tree_shapes(n - k)]
+
+
+def shard_hashes(R, L, mods, rng, quick, g):
+    """bt_leaf$0 leaf:X / bt_fork$1 left:^(BinTree X) right:^(BinTree X): every tree shape up to 6 (quick 5) leaves; the leaves must come back left to right"""
+    from pytoniq_core.tlb.utils import deserialize_shard_hashes
+    shapes = [sh for n in range(1, (6 if quick else 7)) for sh in tree_shapes(n)]
+    for si, shape in enumerate(shapes):
+        if R.nshards > 1 and si % R.nshards != R.shard:
+            continue
+        for rep in range(2 if quick else 6):
+            leaves = []
+
+            def build(sh):
+                w = T.W()
+                if sh is None:
+                    g.small = True
+                    v = g.value(S.t('ShardDescr'))
+                    g.small = False
+                    leaves.append(v)
+                    w.u(0, 1)
+                    S.enc(w, S.t('ShardDescr'), v)
+                else:
+                    w.u(1, 1).ref(build(sh[0])).ref(build(sh[1]))
+                return w.cell()
+            try:
+                tree = build(shape)
+            except rc.RefError:
+                R.count('shard_tree_does_not_fit')
+                continue
+            wcs = {0: tree}
+            if rep % 2:
+                wcs[rng.choice([1, 7, 2 ** 31 - 1])] = build(None)
+                leaves_second = leaves.pop()
+            w = T.W()
+            T.enc_hashmap_e(w, wcs, 32, lambda vw, x: vw.ref(x))
+            w.bits(SENT_BITS)
+            cell = w.cell()
+            W = {'type': 'ShardHashes', 'shape': repr(shape), 'leaves': len(leaves), 'boc': rc.encode_boc([cell])}
+            sl = bridge.to_lib(cell).begin_parse()
+            st, o = mon.call(deserialize_shard_hashes, sl)
+            R.counters['oracle_evaluations'] += 1
+            R.count('shard_hashes_cases')
+            R.cover('constructors_covered', ('ShardHashes', f'{len(leaves)}-leaves'))
+            R.case(mon.fp('shardhashes', cell.hash))
+            if st == 'exc':
+                R.exc(o)
+                R.violation(f'deserialize-raises-ShardHashes-{type(o).__name__}', f'deserialize_shard_hashes raised {o!r} on a BinTree of shape {shape!r}', W)
+                continue
+            lst = getattr((o or {}).get(0), 'list', None)
+            if not isinstance(lst, list) or len(lst) != len(leaves):
+                R.violation('field-differs-ShardHashes-leaf-count', f'BinTree with {len(leaves)} leaves came back as {mon.srepr(lst, 60)}', W)
+                continue
+            C = Cmp(R, L)
+            for i, (v, got) in enumerate(zip(leaves, lst)):
+                C.obj(f'$[0].list[{i}]', 'ShardDescr', v, got)
+            R.count('fields_compared', C.fields)
+            if C.diffs:
+                # a whole leaf in another position shows as many field differences: name the mechanism once
+                order = [next((j for j, v in enumerate(leaves) if getattr(got, 'root_hash', None) == v['root_hash']), -1) for got in lst]
+                if sorted(order) == list(range(len(leaves))) and order != list(range(len(leaves))):
+                    R.violation('field-differs-ShardHashes-leaf-order', f'BinTree leaves came back in order {order}, encoded left to right (shape {shape!r})', W)
+                else:
+                    for path, kind, msg, where in C.diffs[:3]:
+                        R.violation(f'field-differs-{where}-{kind}', f'ShardHashes: field {path}: {msg}', W)
+            R.check(sl.bits.to01() == SENT_BITS and sl.remaining_refs == 0, 'consumed-wrong-amount-ShardHashes', 'deserialize_shard_hashes did not consume exactly the dictionary bit and reference', W)
 
 
 # ------------------------------------------------------------------------------------------- hand-written composite types
